@@ -136,6 +136,25 @@ func (ex *Exec) verifyFunc(fn *ssa.Function, c *Contract) {
 			ex.topParams[p.Name()] = ex.topParams[name]
 		}
 	}
+	// closures verified on their own: captured variables are symbolic cells
+	var topBinds []Val
+	for _, fv := range fn.FreeVars {
+		et := fv.Type()
+		if e, ok := derefPtr(fv.Type()); ok {
+			et = e
+		}
+		v := ex.symParam(st, fv.Name(), et, false)
+		if pt, ok := et.Underlying().(*types.Pointer); ok {
+			if _, isStruct := pt.Elem().Underlying().(*types.Struct); isStruct {
+				st.assume(Gt(v.T, IntLit(0))) // captured receivers are non-nil
+			}
+		}
+		st.ncell++
+		c := &Cell{ID: st.ncell, Name: fv.Name(), Ty: et}
+		st.cells[c] = v
+		topBinds = append(topBinds, Val{Kind: VCellPtr, Cell: c, Ty: fv.Type()})
+		ex.topParams[fv.Name()] = v
+	}
 	for _, r := range c.Requires {
 		ex.specialise(st, r.Expr)
 	}
@@ -160,7 +179,7 @@ func (ex *Exec) verifyFunc(fn *ssa.Function, c *Contract) {
 	}
 	ex.cover(st, "pre")
 	sig := fn.Signature
-	ex.runFunc(st, fn, c, args, nil, 0, func(st2 *State, rets []Val) {
+	ex.runFunc(st, fn, c, args, topBinds, 0, func(st2 *State, rets []Val) {
 		ex.exitPaths++
 		ex.cover(st2, "exit")
 		post := &Env{ex: ex, st: st2, old: ex.entry, vars: map[string]Val{}, fr: fr0, pkg: env.pkg, postLocals: true}
